@@ -135,6 +135,7 @@ type Exec struct {
 	libUsed    map[string]bool
 	heapSort   map[string]Sort
 	code       []*codeCtx
+	nInline    int
 	lastFrame  *frame
 	sizes      []*T
 	strKeys    []*T
@@ -159,6 +160,9 @@ func newExec(prog *Program, pkg *packages.Package, fn *types.Func, fc *FuncContr
 		assumptions: map[string]bool{}, libUsed: map[string]bool{}, heapSort: map[string]Sort{},
 	}
 	ex.st = &State{env: map[string]*T{}, pc: True}
+	for _, n := range []string{"errIs", "dyntype", "ifaceI", "ifaceS", "ifaceO", "memB", "memI", "memS", "memO", "wfS", "bytesEq"} {
+		ex.decls[n] = ""
+	}
 	return ex
 }
 
@@ -170,8 +174,11 @@ func (ex *Exec) errorf(format string, args ...any) {
 	ex.errs = append(ex.errs, msg)
 }
 
+var globalFresh int
+
 func (ex *Exec) fresh(prefix string, s Sort) *T {
-	ex.nfresh++
+	globalFresh++
+	ex.nfresh = globalFresh
 	name := fmt.Sprintf("%s!%d", sanitize(prefix), ex.nfresh)
 	ex.declare(name, nil, s)
 	return Const(name, s)
@@ -243,6 +250,12 @@ func (ex *Exec) assert(kind, label string, goal *T) {
 		return
 	}
 	if goal == True {
+		return
+	}
+	if parts := splitGoal(goal); len(parts) > 1 {
+		for i, p := range parts {
+			ex.assert(kind, fmt.Sprintf("%s.%d", label, i+1), p)
+		}
 		return
 	}
 	base := fmt.Sprintf("%s/%s:%s", ex.name, kind, label)
@@ -461,8 +474,45 @@ func (ex *Exec) heapInit(key string) *T {
 		panic("heapInit: unknown key " + key)
 	}
 	name := sanitize(key) + "!0"
-	ex.declare(name, nil, s)
+	if _, ok := ex.decls[name]; !ok {
+		ex.declare(name, nil, s)
+		ex.heapWF(key, Const(name, s), true)
+	}
 	return Const(name, s)
+}
+
+// heapWF states the type invariant of every cell of a fresh heap array version.
+func (ex *Exec) heapWF(key string, arr *T, global bool) {
+	if !strings.HasPrefix(string(arr.S), "(Array Int ") {
+		return
+	}
+	p := Const("p", SInt)
+	cell := Select(arr, p)
+	var f *T = True
+	if t, ok := ex.keyType[key]; ok {
+		f = ex.typeFact(t, cell)
+		if isPointer(t) || isInterface(t) {
+			// every stored reference was allocated before the current frontier
+			var frontier *T
+			if global {
+				frontier = ex.allocInit()
+			} else {
+				frontier = ex.get(ex.st, "$alloc")
+			}
+			f = And(f, Lt(cell, frontier))
+		}
+	} else if cell.S == SSlice {
+		f = App("wfS", SBool, cell)
+	}
+	if f == True {
+		return
+	}
+	ax := Forall([]string{"p"}, f, cell)
+	if global {
+		ex.declAxiom(arr.String()+"$wf", ax)
+	} else {
+		ex.rawFact(ax)
+	}
 }
 
 // get reads an env key in a state; "$" keys default to their initial version.
@@ -743,4 +793,27 @@ func (ex *Exec) locallyOwned(s *T) *T {
 		return True
 	}
 	return False
+}
+
+// splitGoal splits a goal into independently provable conjuncts.
+func splitGoal(g *T) []*T {
+	switch g.Op {
+	case "and":
+		var out []*T
+		for _, a := range g.A {
+			out = append(out, splitGoal(a)...)
+		}
+		return out
+	case "=>":
+		rs := splitGoal(g.A[1])
+		if len(rs) <= 1 {
+			return []*T{g}
+		}
+		var out []*T
+		for _, r := range rs {
+			out = append(out, Imp(g.A[0], r))
+		}
+		return out
+	}
+	return []*T{g}
 }
